@@ -61,6 +61,7 @@ class Recorder:
         x = int.from_bytes(h, 'big')
         maxd = f.get('max_delay', 0)
         d = (x % (maxd + 1)) if maxd else 0
+        d += f.get('from_delay', {}).get(ssock.host.name, 0)      # a slow path from one host (asymmetric delay)
         plan = [d]
         if f.get('dup_permille', 0) and (x >> 20) % 1000 < f['dup_permille']:
             plan.append(d + ((x >> 32) % 30))
